@@ -58,3 +58,21 @@ PROPS["C18"] = {
         {"test": "^TestInterceptorBytes$", "checks": 5000, "shards": 4, "timeout": 900},
     ],
 }
+
+PROPS["C05"] = {
+    "pkg": "c05",
+    "technique": "property-based testing with a possible-state (may) reference model and an independent byte-level wire decoder as oracle",
+    "level_text": "Generated record/build histories (4 000 quick / ~300 000 thorough, <= 300 steps each) on the exported twcc.Recorder are judged by a "
+                  "possible-state model of what the statement allows the recorder to hold, and every emitted packet is re-decoded from its bytes by a decoder "
+                  "written from the draft; an end-to-end property applies the wire-form rules to what the sender interceptor writes. Exploration.",
+    "level_note": "trusts: the may-model (forgetting is allowed exactly for arrivals >= 500 ms older than a later recorded arrival or > 2^15-1 behind the newest "
+                  "number); arrival times >= 0; sequence unwrapping is taken from the library (verified exhaustively by C20)",
+    "assumptions": ["arrival times are non-negative (the interceptor feeds time since start)",
+                    "the 16-bit base of a feedback is located as the congruent unwrapped number in (newest-65536, newest]"],
+    "quick": [
+        {"test": "^TestRecorderFeedback$", "checks": 4000, "timeout": 400},
+    ],
+    "thorough": [
+        {"test": "^TestRecorderFeedback$", "checks": 20000, "shards": 15, "timeout": 1200},
+    ],
+}
